@@ -16,10 +16,20 @@ import json
 import os
 import re
 import sys
+sys.path.insert(0, os.path.dirname(os.path.abspath(__file__)))
+import introspect  # noqa: E402
 
 NAMES = ['diffx', 'preamble', 'meta', 'change', 'file', 'diff']
 LEAN_NAME = {'diffx': '.diffx', 'preamble': '.preamble', 'meta': '.metadata',
              'change': '.change', 'file': '.file', 'diff': '.diff'}
+
+
+def hunk_header_pattern(mod):
+    """the module-level compiled pattern that matches a hunk header (found by content)"""
+    for name, val in sorted(vars(mod).items()):
+        if isinstance(val, re.Pattern) and '@@' in introspect.pat_str(val):
+            return val
+    return None
 
 
 def split_id(sid):
@@ -101,8 +111,11 @@ def dump(repo):
 
     def g_chunk():
         from pydiffx.reader import DiffXReader
-        sig = inspect.signature(DiffXReader._read_until)
-        return {'chunk': int(sig.parameters['chunk_size'].default), 'chunk_known': True}
+        # the method taking the read-ahead block size is found by its signature, not by its name
+        found = introspect.block_size_method(DiffXReader)
+        if found is None:
+            raise AttributeError('no method of DiffXReader takes a block size')
+        return {'chunk': int(found[2]), 'chunk_known': True}
     group('chunk', {'chunk': 0, 'chunk_known': False}, g_chunk)
     t['bad_ids'] = sorted(set(bad_ids))
 
@@ -110,12 +123,14 @@ def dump(repo):
         from pydiffx.reader import DiffXReader
         from pydiffx.utils import unified_diffs
         # regular expressions: fingerprinted (behaviour is tied by correspondence)
+        h, k, v = introspect.reader_patterns(DiffXReader)
+        hh = hunk_header_pattern(unified_diffs)
         return {'regexes': {
-            'header': DiffXReader._HEADER_RE.pattern.decode('latin1'),
-            'option_key': DiffXReader._HEADER_OPTION_KEY_RE.pattern.decode('latin1'),
-            'option_value': DiffXReader._HEADER_OPTION_VALUE_RE.pattern.decode('latin1'),
-            'hunk_header': unified_diffs.UNIFIED_DIFF_HUNK_HEADER_RE.pattern.decode('latin1'),
-            'hunk_header_flags': unified_diffs.UNIFIED_DIFF_HUNK_HEADER_RE.flags,
+            'header': introspect.pat_str(h) if h else None,
+            'option_key': introspect.pat_str(k) if k else None,
+            'option_value': introspect.pat_str(v) if v else None,
+            'hunk_header': introspect.pat_str(hh) if hh else None,
+            'hunk_header_flags': int(hh.flags) if hh else None,
         }}
     group('regexes', {'regexes': {}}, g_regexes)
 
@@ -125,23 +140,21 @@ def dump(repo):
     # whether or not the change is behaviour-preserving (the escalated search then decides).
     def g_re_reader():
         from pydiffx.reader import DiffXReader
-        return {'re_reader': [
-            ['header', DiffXReader._HEADER_RE.pattern.decode('latin1'), int(DiffXReader._HEADER_RE.flags)],
-            ['option_key', DiffXReader._HEADER_OPTION_KEY_RE.pattern.decode('latin1'), int(DiffXReader._HEADER_OPTION_KEY_RE.flags)],
-            ['option_value', DiffXReader._HEADER_OPTION_VALUE_RE.pattern.decode('latin1'), int(DiffXReader._HEADER_OPTION_VALUE_RE.flags)],
-        ]}
+        h, k, v = introspect.reader_patterns(DiffXReader)
+        return {'re_reader': [[n, introspect.pat_str(p), int(p.flags)]
+                              for n, p in (('header', h), ('option_key', k), ('option_value', v)) if p is not None]}
     group('re_reader', {'re_reader': []}, g_re_reader)
 
     def g_re_writer():
         from pydiffx.writer import DiffXWriter
-        r = DiffXWriter._OPTION_VALUE_RE
-        return {'re_writer': [['option_value', r.pattern if isinstance(r.pattern, str) else r.pattern.decode('latin1'), int(r.flags)]]}
+        return {'re_writer': [[re.sub(r'^_+', '', n).lower(), introspect.pat_str(r), int(r.flags)]
+                              for n, r in sorted(introspect.class_patterns(DiffXWriter).items())]}
     group('re_writer', {'re_writer': []}, g_re_writer)
 
     def g_re_hunks():
         from pydiffx.utils import unified_diffs
-        r = unified_diffs.UNIFIED_DIFF_HUNK_HEADER_RE
-        return {'re_hunks': [['hunk_header', r.pattern.decode('latin1'), int(r.flags)]]}
+        r = hunk_header_pattern(unified_diffs)
+        return {'re_hunks': [['hunk_header', introspect.pat_str(r), int(r.flags)]] if r else []}
     group('re_hunks', {'re_hunks': []}, g_re_hunks)
 
     def g_re_lexer():
@@ -226,7 +239,7 @@ def dump_dom():
         'classes': classes,
         'remapped': sorted(
             [k, sorted(v.items())]
-            for k, v in DiffXDOMWriter._remapped_options.items()),
+            for k, v in (introspect.dict_of_str_dicts(DiffXDOMWriter) or {}).items()),
     }
 
 
@@ -334,11 +347,6 @@ def render(t):
     w('def newlineFormats : List (Text × Text) := [%s]' % ', '.join(
         '(%s, %s)' % (lean_text(k), lean_text(v)) for k, v in t['newline_formats']))
     w('def noNewlineMarker : Bytes := %s' % lean_bytes_of_hex(t['no_newline_marker']))
-    for name, key in (('regexReader', 're_reader'), ('regexWriter', 're_writer'), ('regexHunks', 're_hunks'),
-                      ('regexLexer', 're_lexer')):
-        w('def %s : List (String × String × Nat) := [%s]' % (name, ', '.join(
-            '(%s, %s, %d)' % (json.dumps(a), lean_str(b), c) for a, b, c in t.get(key, []))))
-    w('/-- whether the default block size could be reflected from `DiffXReader._read_until` -/')
     w('def chunkKnown : Bool := %s' % ('true' if t.get('chunk_known') else 'false'))
     w('def config : Config :=')
     w('  { chunk := %d' % int(t['chunk']))
